@@ -14,6 +14,7 @@ import glom
 from glom import PathAccessError, GlomError
 
 from ..runner import Sub, Mismatch
+from .. import runner as runner_mod
 from .. import targets as tg
 from .. import texpr as tx
 
@@ -27,7 +28,7 @@ ASSUMPTIONS = [
     'failing *call* steps and exotic exception classes only have their class checked (DESIGN.md section 6)',
     'nested T/Spec arguments are generated so that they themselves succeed',
 ]
-BOUNDS = {'ops': 6, 'int operands': '1..7', 'exponent': '<= 3'}
+BOUNDS = {'ops': '6 quick / 8 thorough', 'int operands': '1..7', 'exponent': '<= 3'}
 
 
 class Echo(object):
@@ -263,7 +264,7 @@ def gen(draw):
     start = draw(st.sampled_from(['n', 'n', 'm', 'xs', 'd', 's', 'f', 'o', 'echo', 'nil', 'tup', 'boom']))
     steps = [['[', ['s', start]]]
     cur = target[start]
-    nops = draw(st.integers(1, 6))
+    nops = draw(st.integers(1, 8 if runner_mod.thorough() else 6))
     failed = False
     for _ in range(nops):
         fail = draw(st.integers(0, 99)) < 9 and not failed
